@@ -1,9 +1,87 @@
-// Package all links every world into the worker.
+// Package all links every world into the worker and combines the two roles of
+// C02 and C12 (broker world and client world) into one definition each.
 package all
 
 import (
+	"encoding/json"
+
 	_ "verif/sim/world/ackw"
 	_ "verif/sim/world/broker"
+	"verif/sim/world/clientw"
 	_ "verif/sim/world/ring"
 	_ "verif/sim/world/topicw"
+
+	"verif/sim/simrt"
+	"verif/sim/world"
 )
+
+// Dual is a script of a property that is explored in two worlds.
+type Dual struct {
+	World  string          `json:"world"`
+	Script json.RawMessage `json:"script"`
+	inner  interface{}
+}
+
+func combine(a, b *world.Def) *world.Def {
+	pick := func(d *Dual) *world.Def {
+		if d.World == b.World {
+			return b
+		}
+		return a
+	}
+	load := func(d *Dual) interface{} {
+		if d.inner == nil {
+			d.inner = pick(d).NewScript()
+			if err := json.Unmarshal(d.Script, d.inner); err != nil {
+				panic(err)
+			}
+		}
+		return d.inner
+	}
+	wrap := func(def *world.Def, s interface{}) *Dual {
+		raw, _ := json.Marshal(s)
+		return &Dual{World: def.World, Script: raw, inner: s}
+	}
+	n := *a
+	n.World = a.World + "+" + b.World
+	n.Gen = func(tier string, seed uint64, idx int) interface{} {
+		if idx%2 == 0 {
+			return wrap(a, a.Gen(tier, seed, idx/2))
+		}
+		return wrap(b, b.Gen(tier, seed, idx/2))
+	}
+	n.NewScript = func() interface{} { return &Dual{} }
+	n.Run = func(script interface{}, cfg simrt.Config) *world.Outcome {
+		d := script.(*Dual)
+		o := pick(d).Run(load(d), cfg)
+		if o.Summary != nil {
+			o.Summary["world"] = d.World
+		}
+		return o
+	}
+	n.Shrink = func(script interface{}) []interface{} {
+		d := script.(*Dual)
+		def := pick(d)
+		var out []interface{}
+		if def.Shrink != nil {
+			for _, s := range def.Shrink(load(d)) {
+				out = append(out, wrap(def, s))
+			}
+		}
+		return out
+	}
+	n.Rule = "two worlds, alternating by run index. " + a.World + " world: " + a.Rule + " | " + b.World + " world: " + b.Rule
+	n.Real = append(append([]string{}, a.Real...), b.Real...)
+	n.Stub = append(append([]string{}, a.Stub...), b.Stub...)
+	n.QuickRuns = a.QuickRuns + b.QuickRuns
+	n.ThoroughRuns = a.ThoroughRuns + b.ThoroughRuns
+	return &n
+}
+
+func init() {
+	cd := clientw.Defs()
+	world.Register(cd["C20"])
+	for _, p := range []string{"C02", "C12"} {
+		world.Replace(combine(world.Lookup(p), cd[p]))
+	}
+}
